@@ -19,6 +19,7 @@ def documentedPanic : Call → Bool
   | .fromMutSlice n len => decide (len ≠ n)
   | .chunks n len => decide (n = 0) && decide (len ≠ 0)
   | .chunksMut n len => decide (n = 0) && decide (len ≠ 0)
+  | .transmute sa sb _ _ => decide (sa ≠ sb)
   | _ => false
 
 theorem chunks_verdict (len n : Nat) (m u : Bool) (hu : (!m || u) = true) :
@@ -89,6 +90,9 @@ theorem const_api_verdict (c : Call) : eval c = if documentedPanic c then .panic
   | uninitAssumeInit n =>
     simp [eval, isConst_of _ _ (hc "uninit" (by simp)), isConst_of _ _ (hc "assume_init" (by simp)),
       isConst_of _ _ (hc "as_mut_slice" (by simp)), documentedPanic]
+  | transmute sa sb aa ab =>
+    simp only [eval, isConst_of _ _ (hc "const_transmute" (by simp)), documentedPanic, C02.transmute_checked, ga_bridge]
+    by_cases h : sa = sb <;> simp [h]
 
 theorem never_ub (c : Call) : eval c ≠ .ub ∧ eval c ≠ .notConst := by
   rw [const_api_verdict]; split <;> simp
@@ -113,6 +117,12 @@ theorem accept_iff_runtime_ok_chunks (n len : Nat) (hn : 0 < n) :
   have := Nat.div_add_mod len n
   have h2 : len / n * n = n * (len / n) := Nat.mul_comm _ _
   omega
+
+/-- `const_transmute` itself, for any pair of types: accepted iff the sizes agree, whatever the
+    alignments (the value moves through a union, never through a re-typed pointer) -/
+theorem const_transmute_verdict (sa sb aa ab : Nat) :
+    eval (.transmute sa sb aa ab) = if sa = sb then .accept else .panic := by
+  rw [const_api_verdict]; by_cases h : sa = sb <;> simp [documentedPanic, h]
 
 -- non-vacuity
 example : eval (.chunks 3 7) = .accept := by rw [const_api_verdict]; rfl
